@@ -216,6 +216,13 @@ func runHistory(kp hx.KeyPair, h aHist, rng *mrand.Rand, res *hx.Result) {
 	b, _ := json.Marshal(h)
 	res.Eval(hx.Digest(b))
 	var last *gabi.ProofD
+	// the state the holder stores at issuance (rollback reads it back into the variable in use), and the index the witness is at
+	// (kept by the harness: after a rollback the unserialised fields of the objects do not tell)
+	stored0, err := json.Marshal(cred)
+	if err != nil {
+		hx.Fatal("marshal credential: %v", err)
+	}
+	witIdx := 0
 	for step, op := range h.Hist {
 		det := hx.M{"history": h.Hist, "step": step, "key": kp.PK.Issuer}
 		var violated bool
@@ -244,8 +251,10 @@ func runHistory(kp hx.KeyPair, h aHist, rng *mrand.Rand, res *hx.Result) {
 			case "revokeself":
 				c.revoke(cred.NonRevocationWitness.E)
 			case "update":
-				from := int(cred.NonRevocationWitness.SignedAccumulator.Accumulator.Index)
-				err := cred.NonRevocationWitness.Update(kp.PK, c.update(from))
+				err := cred.NonRevocationWitness.Update(kp.PK, c.update(witIdx))
+				if err == nil {
+					witIdx = op.Idx
+				}
 				// the other holder follows every update
 				ofrom := int(other.NonRevocationWitness.SignedAccumulator.Accumulator.Index)
 				if oerr := other.NonRevocationWitness.Update(kp.PK, c.update(ofrom)); oerr != nil {
@@ -263,6 +272,11 @@ func runHistory(kp hx.KeyPair, h aHist, rng *mrand.Rand, res *hx.Result) {
 					res.Violation("witness-index-diverges", fmt.Sprintf("witness at index %d, spec %d", got, op.Idx), det)
 					violated = true
 				}
+			case "rollback":
+				if err := json.Unmarshal(stored0, cred); err != nil {
+					hx.Fatal("reading the stored credential back: %v", err)
+				}
+				witIdx = 0
 			case "prove":
 				hadCache := cred.VerifCachedNonrevBuilder() != nil
 				p, err := cred.CreateDisclosureProof([]int{1}, nil, true, ctx, nonce)
